@@ -8,6 +8,7 @@ import TB.Props.C01
 import TB.Props.C11
 import TB.Props.C04a
 import TB.Lemmas.RunJ
+import TB.Lemmas.RunJCex
 namespace TB
 
 /-- `x` is the correct torrent byte at offset `k` of the file `p`: some work item of the run has a non-padding
@@ -30,16 +31,38 @@ def BytesOk (H : Bytes → Bytes) (work : List Work) (fs0 fs : Fs) : Prop :=
     ∨ (x = 0 ∧ ∀ i0, fs0.inoOf p = some i0 → (fs0.content i0).length ≤ k)
     ∨ GoodByte H work p k x
 
-/-- the end-state sentence of C01 for a whole run -/
-theorem C01_bytes (H : Bytes → Bytes) (inp : RunIn) (hwf : FsWF inp.fs)
-    (hna : NoAlias inp.fs (run H inp).table) (hrange : ∀ w ∈ (run H inp).work, SegsInRange w) :
-    BytesOk H (run H inp).work inp.fs (run H inp).fs := by
-  sorry
+/-- the end-state sentence of C01 for a whole run.
 
-/-- and for every interruption point: the tree replayed from any prefix of the log satisfies the same -/
+    `hsame` (non-padding table entries with the same export image declare the same length) is there because the
+    statement is false without it; the world is the checked example `TB.Lemmas.RunJCex` (`H = id`): one torrent
+    lists the path `x` twice (finding D6), once with length 2 and once with length 1, and the image exists with
+    content `[5, 6]`. The piece of the length-1 entry is found first: `set_len 1` truncates the image to `[5]`; then
+    a piece of the length-2 entry is found: `set_len 2` re-extends the image with a zero at offset 1, and only offset
+    0 is written. Byte 1 is now `0`: it was `6`, it lies below the original length, and the piece covering it was
+    never found. `FsWF`, `NoAlias` (which says nothing about two entries with the same image) and `SegsInRange` all
+    hold in that world (`RunJ.Cex.wf`, `noAlias`, `segsInRange`, `not_sameLen`, `not_bytesOk`). With `hsame` a
+    `set_len` extends an image only from its original length, so the zeros lie beyond it. -/
+theorem C01_bytes (H : Bytes → Bytes) (inp : RunIn) (hwf : FsWF inp.fs)
+    (hna : NoAlias inp.fs (run H inp).table) (hrange : ∀ w ∈ (run H inp).work, SegsInRange w)
+    (hsame : ∀ e ∈ (run H inp).table, ∀ f ∈ (run H inp).table, e.isPad = false → f.isPad = false →
+      e.fullTarget = f.fullTarget → e.fileLength = f.fileLength) :
+    BytesOk H (run H inp).work inp.fs (run H inp).fs := by
+  rw [C11_replay]
+  exact (RunJ.inv_replay H inp hwf hna hsame hrange _ (fun _ h => h)).bytes
+
+/-- and for every interruption point: the tree replayed from any prefix of the log satisfies the same
+    (`hsame`: see `C01_bytes`) -/
 theorem C01_bytes_prefix (H : Bytes → Bytes) (inp : RunIn) (hwf : FsWF inp.fs)
-    (hna : NoAlias inp.fs (run H inp).table) (hrange : ∀ w ∈ (run H inp).work, SegsInRange w) (n : Nat) :
-    BytesOk H (run H inp).work inp.fs (replay inp.fs ((run H inp).ops.take n)) := by
-  sorry
+    (hna : NoAlias inp.fs (run H inp).table) (hrange : ∀ w ∈ (run H inp).work, SegsInRange w)
+    (hsame : ∀ e ∈ (run H inp).table, ∀ f ∈ (run H inp).table, e.isPad = false → f.isPad = false →
+      e.fullTarget = f.fullTarget → e.fileLength = f.fileLength) (n : Nat) :
+    BytesOk H (run H inp).work inp.fs (replay inp.fs ((run H inp).ops.take n)) :=
+  (RunJ.inv_replay H inp hwf hna hsame hrange _ (fun _ h => List.mem_of_mem_take h)).bytes
+
+/-- the first formulation (without `hsame`) is refuted by the world of `TB.Lemmas.RunJCex` -/
+theorem C01_bytes_needs_hsame :
+    ¬ (∀ (H : Bytes → Bytes) (inp : RunIn), FsWF inp.fs → NoAlias inp.fs (run H inp).table →
+        (∀ w ∈ (run H inp).work, SegsInRange w) → BytesOk H (run H inp).work inp.fs (run H inp).fs) :=
+  fun h => RunJ.Cex.not_bytesOk (h id RunJ.Cex.inp RunJ.Cex.wf RunJ.Cex.noAlias RunJ.Cex.segsInRange)
 
 end TB
